@@ -25,6 +25,10 @@ def _post(ctx, scns, results):
     return extra
 
 
+REPO_ASSUME = ("thorough tier: every model / filter call the repository's own test-suite executes is recorded (pytest plugin, /repo untouched), "
+               "projected against the Jacobian trees Derive.tla derives from the recorded definition, and validated by EKFCalls_Trace.tla")
+
+
 def run(ctx):
     return numeric.run_numeric(
         ctx, sim=("MC_EKF", "MC_C06_sim.cfg"), sim_num_quick=64, sim_num_thorough=2400, post=_post,
@@ -32,7 +36,7 @@ def run(ctx):
              "the gate exactly ((nis-m)^2 > 2 m k^2, no square root) and a rejected update must leave state and covariance "
              "bit-identical while the innovation is still recorded",
         scope="simulation: 1-3 sensors of 1-3 readings, reading offsets on both sides of the boundary",
-        assumptions=numeric.BASE_ASSUME)
+        assumptions=numeric.BASE_ASSUME + [REPO_ASSUME], repo_tests=True)
 
 
 def replay(ctx, path):
